@@ -13,6 +13,68 @@ from . import c06
 UT = "bluesky.utils"
 
 
+def registry_connect_disconnect_inverse(ctx, repo, rule):
+    """connect records a subscription in several per-signal maps of the registry (cid -> proxy, proxy -> cid); the de-duplication
+    branch of connect trusts the proxy -> cid map.  disconnect must erase the cid from EVERY map connect wrote - explicitly: the
+    weak-key map drops an entry only when the proxy object dies, and anything that keeps the proxy alive (the traceback of an
+    exception the callback raised, a reference cycle) leaves a stale entry, so the next connect of the same callable returns the
+    dead cid and the callable is silently not subscribed."""
+    con = repo.func(UT, "CallbackRegistry.connect")
+    dis = repo.func(UT, "CallbackRegistry.disconnect")
+    written = set()
+    for st in A.walk_stmts(con.node.body):
+        for t in A.targets_of(st):
+            if isinstance(t, ast.Subscript) and isinstance(t.value, ast.Subscript):
+                ch = A.chain(t.value.value)
+                if ch and ch.startswith("self."):
+                    written.add(ch[5:])
+    ctx.ob(rule, cname(con, None, "per-subscription maps written by connect"), len(written) >= 2,
+           f"maps: {sorted(written)}" if len(written) >= 2 else f"connect records a subscription in {sorted(written)} only", where=where(con, con.node))
+    # maps from which disconnect deletes: `del X[...]` where X is self.<map>[...] or a loop variable over self.<map>.items() / .values()
+    alias = {}
+    for lp in A.walk_stmts(dis.node.body):
+        if isinstance(lp, ast.For) and isinstance(lp.iter, ast.Call) and isinstance(lp.iter.func, ast.Attribute) and lp.iter.func.attr in ("items", "values"):
+            src = A.chain(lp.iter.func.value)
+            inner = lp.iter
+            # list(self.x.items()) is handled by the caller unwrapping below
+            if src and src.startswith("self."):
+                names = [e.id for e in (lp.target.elts if isinstance(lp.target, ast.Tuple) else [lp.target]) if isinstance(e, ast.Name)]
+                if names:
+                    alias[names[-1]] = src[5:]
+            elif src in alias:
+                pass
+        if isinstance(lp, ast.For) and isinstance(lp.iter, ast.Call) and A.call_name(lp.iter) == "list" and lp.iter.args and isinstance(lp.iter.args[0], ast.Call) \
+                and isinstance(lp.iter.args[0].func, ast.Attribute) and lp.iter.args[0].func.attr in ("items", "values"):
+            src = A.chain(lp.iter.args[0].func.value)
+            if src and src.startswith("self."):
+                names = [e.id for e in (lp.target.elts if isinstance(lp.target, ast.Tuple) else [lp.target]) if isinstance(e, ast.Name)]
+                if names:
+                    alias[names[-1]] = src[5:]
+    erased = set()
+    for st in A.walk_stmts(dis.node.body):
+        tgts = st.targets if isinstance(st, ast.Delete) else []
+        for t in tgts:
+            if isinstance(t, ast.Subscript):
+                base = t.value
+                ch = A.chain(base.value) if isinstance(base, ast.Subscript) else A.chain(base)
+                if ch and ch.startswith("self."):
+                    erased.add(ch[5:])
+                elif ch in alias:
+                    erased.add(alias[ch])
+        for c in A.calls_in(st) if not isinstance(st, (ast.For, ast.If, ast.Try, ast.While, ast.With)) else []:
+            if isinstance(c.func, ast.Attribute) and c.func.attr in ("pop", "popitem"):
+                ch = A.chain(c.func.value.value) if isinstance(c.func.value, ast.Subscript) else A.chain(c.func.value)
+                if ch and ch.startswith("self."):
+                    erased.add(ch[5:])
+                elif ch in alias:
+                    erased.add(alias[ch])
+    for m in sorted(written):
+        ok = m in erased
+        ctx.ob(rule, cname(dis, None, f"disconnect erases the id from self.{m}"), ok,
+               "" if ok else f"disconnect leaves the subscription in self.{m} (it relies on the proxy being garbage collected): while anything keeps the proxy "
+               "alive the next connect of the same callable is answered with the dead id and the callable receives nothing", nontrivial=True, where=where(dis, dis.node))
+
+
 def run(ctx):
     rm = REModel(ctx.repo)
     repo = rm.repo
@@ -72,6 +134,7 @@ def run(ctx):
     dis = repo.func(UT, "CallbackRegistry.disconnect")
     ok = any(isinstance(s, ast.Try) and any(isinstance(x, ast.Delete) and A.norm(x) == "del callbackd[cid]" for x in s.body) for s in A.walk_stmts(dis.node.body))
     ctx.ob("C18.D1-unsubscribe-shape", cname(dis, None, "disconnect removes exactly the given id"), ok, "" if ok else "disconnect removes something else", where=where(dis, dis.node))
+    registry_connect_disconnect_inverse(ctx, repo, "C18.D1-disconnect-undoes-connect")
     init = repo.func(MOD, "Dispatcher.__init__")
     ok = "self._counter = count()" in A.norm(init.node) and "self._token_mapping = dict()" in A.norm(init.node)
     ctx.ob("C18.D1-unsubscribe-shape", cname(init, None, "token counter and mapping are per dispatcher"), ok, "" if ok else "token source changed", where=where(init, init.node))
@@ -114,6 +177,7 @@ CLAIM = {
 RE = "run_engine.py"
 U = "utils/__init__.py"
 MUTANTS = [
+    ("disconnect relies on the weak map to forget the proxy (seed C19-b)", [(U, "            else:\n                # Look for cid in 'self._func_cid_map' as well. It may still be there.\n                for sig, functions in self._func_cid_map.items():  # noqa: B007\n                    for function, value in list(functions.items()):\n                        if value == cid:\n                            del functions[function]\n                return", "            else:\n                return")], "C18.D1-disconnect"),
     ("shared private ids disconnected unconditionally (revert of the F-6 fix)",
      [(RE, "            if any(private_token in others for others in self._token_mapping.values()):\n                continue\n", "")], "C18.D1"),
     ("public tokens reused", [(RE, "        name = DocumentNames[name]\n        private_token = self.cb_registry.connect(name, func)\n        public_token = next(self._counter)", "        name = DocumentNames[name]\n        private_token = self.cb_registry.connect(name, func)\n        public_token = private_token")], "C18.D1"),
